@@ -21,8 +21,8 @@ MANIFEST = {
             'stored on an instance built with K.__new__(K) in the stream, indexer and sparse modules is storable. copy_like copies the thermal condition on every '
             'normal path; unlink re-binds the whole indexer (a proxy shares the indexer object); every slot the inherited copy/proxy/link methods read is assigned '
             'by MultiStream.__init__; on every path of copy_like where the property packages differ each value moves through the index_overlap pair, and the '
-            'stream-level copy_like copies a raw flow vector by position only on paths where both streams use the same package object. Equality of observable state'
-            ' after unpickling is not decided.',
+            'stream-level copy_like copies a raw flow vector by position only on paths where both streams use the same package object; ChemicalIndexer.copy_like '
+            "stores the other indexer's phase on every copying path. Equality of observable state after unpickling is not decided.",
 }
 
 ST = 'thermosteam/_stream.py'
